@@ -20,9 +20,9 @@ RULE = ("C01 generator (succeeding and failing) with hostile values injected int
         "{fresh Pipeline per run, one reused Pipeline} x histories of 0..6 unrelated runs in between; distinct = hash of "
         "(nodes, ctx, data, detail); non-trivial = >= 2 nodes and both the observational and the reproducibility "
         "comparison were made")
-SHARDS = {"quick": 8, "thorough": 16}
+SHARDS = {"quick": 8, "thorough": 48}
 SHARD_TIMEOUT = {"quick": 600, "thorough": 3000}
-N_CASES = {"quick": 60, "thorough": 250}
+N_CASES = {"quick": 60, "thorough": 90}
 DETAILS = ["all", "hash", "repr", "context", "repr,context"]
 
 
